@@ -269,8 +269,5 @@ func TestC11(t *testing.T) {
 	if e1Replayer(scs, col) {
 		return
 	}
-	item := 0
-	for _, sc := range scs {
-		e1Explore(sc, col, &item)
-	}
+	e1ExploreTiers(func(th bool) []*e1Scenario { return append(c11Scenarios(th), c11ExtraScenarios(th)...) }, nil, col)
 }
